@@ -25,13 +25,17 @@ fn substitute(
     expected_alignment: i64,
     journaled_sp: &mut i64,
     tid: Tid,
+    sp_register: &Variable,
 ) -> Vec<LogMessage> {
     let mut log: Vec<LogMessage> = vec![];
 
     if let Expression::BinOp { op, lhs, rhs } = exp {
         match (&**lhs, &**rhs) {
+            // The journaled offset is only meaningful if the masked value is the stack pointer itself.
             (Expression::Var(sp), Expression::Const(bitmask))
-            | (Expression::Const(bitmask), Expression::Var(sp)) => {
+            | (Expression::Const(bitmask), Expression::Var(sp))
+                if sp == sp_register =>
+            {
                 if let BinOpType::IntAnd = op {
                     if ApInt::try_to_i64(&ApInt::into_negate(bitmask.clone())).unwrap()
                         != expected_alignment
@@ -193,6 +197,7 @@ pub fn substitute_and_on_stackpointer(project: &mut Project) -> Option<Vec<LogMe
                                         sp_alignment,
                                         journaled_sp,
                                         def.tid.clone(),
+                                        &project.stack_pointer_register,
                                     );
                                     log.append(&mut msg);
                                     if !log
